@@ -46,10 +46,7 @@ def _has_empty_reduced_axis(case):
 
 
 def _classify_c03(name, case, msg):
-    fmt = case.get("format", "")
-    shp = case.get("shape", [])
-    if fmt.startswith("gcxs") and 0 in shp and name in ("var", "std") and "AttributeError" in msg:
-        return "F-gcxs-empty-var"
+    # F-gcxs-empty-var is repaired (/repo 048776e): no C03 region is left
     return None
 
 
